@@ -323,6 +323,9 @@ def gen(rnd):
 def run_shard(shard, env):
     import traceback
 
+    import term_image
+
+    term_image.set_query_timeout(5.0)  # see vf/lib.py: a late reply must not look like none
     res = Result(shard)
     if "replay" in shard:
         cases = [shard["replay"]]
